@@ -270,11 +270,11 @@ class Layout(ShapeCastable, metaclass=ABCMeta):
         for key, field in self:
             shape = Shape.cast(field.shape)
             field_value = value[field.offset:field.offset+shape.width]
+            if shape.signed:
+                field_value = field_value.as_signed()
             if isinstance(field.shape, ShapeCastable):
                 fields[str(key)] = field.shape.format(field.shape(field_value), "")
             else:
-                if shape.signed:
-                    field_value = field_value.as_signed()
                 fields[str(key)] = Format("{}", field_value)
         return Format.Struct(value, fields)
 
@@ -567,11 +567,11 @@ class ArrayLayout(Layout):
         shape = Shape.cast(self._elem_shape)
         for index in range(self._length):
             field_value = value[shape.width * index:shape.width * (index + 1)]
+            if shape.signed:
+                field_value = field_value.as_signed()
             if isinstance(self._elem_shape, ShapeCastable):
                 fields.append(self._elem_shape.format(self._elem_shape(field_value), ""))
             else:
-                if shape.signed:
-                    field_value = field_value.as_signed()
                 fields.append(Format("{}", field_value))
         return Format.Array(value, fields)
 
@@ -852,17 +852,16 @@ class View(ValueCastable):
             value = self.__target[field.offset:field.offset + field.width]
         # Field guarantees that the shape-castable object is well-formed, so there is no need
         # to handle erroneous cases here.
+        # `ShapeCastable.__call__()` expects a value of the same shape as the shape-castable object.
+        if Shape.cast(shape).signed:
+            value = value.as_signed()
         if isinstance(shape, ShapeCastable):
             value = shape(value)
             if not isinstance(value, (Value, ValueCastable)):
                 raise TypeError(
                     f"{shape!r}.__call__() must return a value or a value-castable object, not "
                     f"{value!r}")
-            return value
-        if Shape.cast(shape).signed:
-            return value.as_signed()
-        else:
-            return value
+        return value
 
     def __getattr__(self, name):
         """Access a field of the underlying value.
@@ -1102,9 +1101,12 @@ class Const(ValueCastable):
             value = (self.__target >> field.offset) & ((1 << field.width) - 1)
         # Field guarantees that the shape-castable object is well-formed, so there is no need
         # to handle erroneous cases here.
+        # `ShapeCastable.from_bits()` expects the value of a constant of the same shape as
+        # the shape-castable object (which is negative if the shape is signed and the MSB is set).
+        value = hdl.Const(value, Shape.cast(shape)).value
         if isinstance(shape, ShapeCastable):
             return shape.from_bits(value)
-        return hdl.Const(value, Shape.cast(shape)).value
+        return value
 
     def __getattr__(self, name):
         """Access a field of the underlying value.
